@@ -811,6 +811,9 @@ class Lib:
         if last2 == 'Error::new':
             e0 = I.deref(args[0])
             return Opaque('Error', msg=self._errmsg(e0), site=node['line'], file=node['_file'], source=e0)
+        if last2 == 'itertools::sorted':
+            its = self._forked(self.iterate(args[0], node))
+            return self.mk_iter(sorted(its, key=lambda gx: self._sort_key(I.deref(gx[1]), node)))
         if last2 == 'itertools::join':
             items = self.iterate(args[0], node)
             sep = I.deref(args[1])
@@ -1414,6 +1417,9 @@ class Lib:
                 if r.variant == 'Some':
                     return r
             return NONE
+        if method == 'sorted':
+            its = self._forked(items)
+            return self.mk_iter(sorted(its, key=lambda gx: self._sort_key(I.deref(gx[1]), node)))
         if method in ('dedup', 'dedup_with_count', 'unique'):
             # itertools adaptors over certainly present, comparable elements (presence is resolved by forking first)
             its = self._forked(items)
@@ -1491,6 +1497,22 @@ class Lib:
         if method == 'buffer_unordered':
             return Opaque('Stream', items=tuple(items))
         raise Unsupported('Iterator::%s' % method, node)
+
+    def _sort_key(self, v, node):
+        """Ord of concrete values: strings, integers, Option<..>, tuples and (by field order) structs of those."""
+        if isinstance(v, bool):
+            return (0, int(v))
+        if isinstance(v, int):
+            return (0, v)
+        if isinstance(v, str):
+            return (1, v.encode('utf-8', 'surrogatepass'))
+        if isinstance(v, REnum) and v.ty == 'Option':
+            return (2, 0) if v.variant == 'None' else (2, 1, self._sort_key(self.I.deref(v.payload[0]), node))
+        if isinstance(v, RTuple):
+            return (3, tuple(self._sort_key(self.I.deref(x), node) for x in v.items))
+        if isinstance(v, RStruct):
+            return (4, tuple(self._sort_key(self.I.deref(x), node) for x in v.fields.values()))
+        raise Unsupported('ordering of %r' % (v,), node)
 
     def _concrete_eq(self, a, b, node):
         r = self.value_eq(a, b)
